@@ -288,6 +288,8 @@ def _race_units():
                 continue
             if u["name"] == "bm-sched" and pid != "C03":
                 continue  # same scenarios as C03's unit
+            if u["name"] in ("verdict", "enforce"):
+                q, th = 4, 14  # network simulations: slow under the detector
             r = dict(u)
             r["name"] = "race-" + pid.lower() + "-" + u["name"]
             r["race"] = True
